@@ -162,6 +162,7 @@ def run(ctx):
     rs(ctx, 'ipv4', lambda: uc.stream_ipv4(ctx, wu, ctx.scale(2000, 40000), ctx.subrng('ipv4')))
     rs(ctx, 'strings', lambda: uc.stream_strings(ctx, wu, ctx.scale(4000, 80000), ctx.subrng('str')))
     rs(ctx, 'iso2022', lambda: batch(ctx, wu, uc.iso2022_cases(ctx.subrng('iso2022'), ctx.scale(600, 6000))))
+    rs(ctx, 'all-codecs', lambda: batch(ctx, wu, uc.all_codec_cases()))
     sweep = uc.byte_sweep_cases()
     rs(ctx, 'byte-sweep', lambda: batch(ctx, wu, sweep[::2] if ctx.tier == 'quick' else sweep))
     total_spec = ctx.scale(4000, 120000)
